@@ -143,6 +143,7 @@ class Interp:
         self._table_cache = {}
         self.integrals = {}
         self.n_objects = 0
+        self._is_gen = {}
         self.module_globals = {}      # (module, node id) -> shared mutable module-level container
         self.sym_strings = {}         # placeholder python str -> (width, cls): symbolic text values
         self.num_widths = {}          # repr(Rat) -> printed width of that number under %d / %.1f / str()
@@ -262,7 +263,10 @@ class Interp:
         self.calls.append(name or fn.name)
         try:
             fr = Frame(self, module, env, owner, self_obj)
-            is_gen = any(isinstance(x, (ast.Yield, ast.YieldFrom)) for x in ast.walk(fn))
+            is_gen = self._is_gen.get(id(fn))
+            if is_gen is None:
+                is_gen = any(isinstance(x, (ast.Yield, ast.YieldFrom)) for x in ast.walk(fn))
+                self._is_gen[id(fn)] = is_gen
             if is_gen:
                 fr.yields = []
             try:
